@@ -7,6 +7,8 @@
 //! `bmpwf <hex> [<cfg>]`: the same, for a message the generator (or whoever wrote the corpus line) built
 //! with the reference encoders below from WELL-FORMED parts and did not damage: the oracle then demands
 //! that it is ACCEPTED (property clause "for every well-formed BMP message decoding succeeds").
+//! `bmpchk <hex>`: `Message::check` (the framing test on the receive buffer, message.rs:171) on a cursor over the
+//! octets: `ok:<len>` | `incomplete` | `illegal` | `panic`; the oracle holds it against RFC 7854 section 4.1.
 //! `unspec`: reply for an accepted-or-rejected PeerUp / PeerDown whose embedded PDU does not carry the
 //! BGP type octet of an OPEN resp. a NOTIFICATION and on which nothing panicked: such a message is
 //! not well-formed and the property does not say whether it is accepted (both sides print the
@@ -676,12 +678,40 @@ impl Prop for C15 {
             }
             out.push(format!("bmp {}", hex(&v)));
         }
+        // Message::check on buffers of every length 0..=12 around the size rules, and on random prefixes
+        for l in 0..=12usize {
+            for len in [0u32, 1, 4, 5, 6, 7, 8, 11, 12, 13, 0x7fff_ffff, 0x8000_0000, 0xffff_fffa, 0xffff_ffff] {
+                let mut v = vec![3u8];
+                v.extend_from_slice(&len.to_be_bytes());
+                v.extend_from_slice(&[4, 0, 0, 0, 0, 0, 0, 0]);
+                v.truncate(l);
+                out.push(format!("bmpchk {}", hex(&v)));
+            }
+        }
+        for _ in 0..(n / 100) {
+            let t = rng.below(7) as u8;
+            let mut v = gen_valid(rng, t);
+            match rng.below(4) { 0 => {} 1 => { let k = rng.usize(0, v.len()); v.truncate(k); } 2 => { mutate(rng, &mut v); } _ => { let k = rng.usize(0, 8); v.extend(rng.bytes(k)); } }
+            out.push(format!("bmpchk {}", hex(&v)));
+        }
         out
     }
 
     fn exec(&self, line: &str) -> String {
         let w: Vec<&str> = line.split(' ').collect();
         match w.as_slice() {
+            ["bmpchk", h] => match unhex(h) {
+                Some(b) => {
+                    let mut cur = std::io::Cursor::new(b);
+                    match Message::<Vec<u8>>::check(&mut cur) {
+                        Ok(l) => format!("ok:{}", l),
+                        Err(MessageError::Incomplete) => "incomplete".into(),
+                        Err(MessageError::IllegalSize) => "illegal".into(),
+                        Err(_) => "other".into(),
+                    }
+                }
+                None => "bad-op".into(),
+            },
             ["bmp" | "bmpwf", h] => match unhex(h) { Some(b) => observe(&b, &SessionConfig::modern()), None => "bad-op".into() },
             ["bmp" | "bmpwf", h, c] => match (unhex(h), crate::props::c02::parse_cfg(c)) {
                 (Some(b), Some(c)) => observe(&b, &crate::props::c02::make_cfg(&c)),
@@ -694,6 +724,17 @@ impl Prop for C15 {
     /// totality + the parts of faithfulness that need no model:
     /// no panic anywhere; header fields equal the bytes; embedded UPDATE decodes as on its own.
     fn oracle(&self, line: &str, reply: &str) -> Result<(), String> {
+        if line.starts_with("bmpchk ") {
+            if reply == "panic" { return Err("bmp::Message::check panicked".into()); }
+            if reply == "bad-op" { return Ok(()); }
+            // RFC 7854 section 4.1: the length field counts the whole message, common header included
+            let b = unhex(line.split(' ').nth(1).unwrap_or("")).unwrap_or_default();
+            let want = if b.len() < 5 { "incomplete".to_string() } else {
+                let l = u32::from_be_bytes([b[1], b[2], b[3], b[4]]);
+                if l <= 6 { "illegal".into() } else if (l as u64) <= b.len() as u64 { format!("ok:{}", l) } else { "incomplete".into() }
+            };
+            return if reply == want { Ok(()) } else { Err(format!("Message::check answered {} for a buffer of {} octets, RFC 7854 framing says {}", reply, b.len(), want)) };
+        }
         if reply == "panic" { return Err("bmp::Message::from_octets panicked".into()); }
         if reply == "bad-op" { return Ok(()); }
         if reply == "err" {
@@ -851,6 +892,7 @@ impl Prop for C15 {
 
     fn class(&self, line: &str, reply: &str) -> String {
         let k = reply.split(' ').next().unwrap_or("");
+        if line.starts_with("bmpchk ") { return format!("check:{}", k.split(':').next().unwrap_or("")); }
         // well-formed messages (claim of the line confirmed by the reference framing) are counted apart
         if line.starts_with("bmpwf ") {
             let ok = unhex(line.split(' ').nth(1).unwrap_or("")).map(|b| ref_framing_ok(&b)).unwrap_or(false);
